@@ -12,7 +12,7 @@ RULE = ('each event presents one (x, y) to AffineG1::new, AffineG2::new or to on
 
 
 def cases(tier, seed):
-    n = 96 if tier == 'quick' else 12000
+    n = 300 if tier == 'quick' else 12000
     return [('g2', i) for i in range(n)] + [('g1', i) for i in range(n // 3 + 1)]
 
 
